@@ -117,6 +117,20 @@ Definition step_deliver (x : xstate) (n fault : Z) : xstate * list Z :=
        Z.of_nat (length named) :: map (fun t => match ver_at cl1 (i_ts i) t with Some _ => 1 | None => 0 end) named)
   end.
 
+(* 41: instruction number n reaches tractserver recv (the request carries the id it was computed for, i_ts):
+   TSCtlHandler.GCTract refuses a request stamped with another id (ErrWrongTractserver, nothing happens) *)
+Definition step_deliver_to (x : xstate) (n fault recv : Z) : xstate * list Z :=
+  match nth_error (x_soup x) (Z.to_nat n) with
+  | None => (x, [-2])
+  | Some i =>
+      if recv =? i_ts i then let '(x', o) := step_deliver x n fault in (x', c05_NoError :: o)
+      else
+        let named := map fst (i_old i) ++ i_gone i in
+        (set_cl x (x_cl x),
+         c05_ErrWrongTractserver :: Z.of_nat (length named) ::
+           map (fun t => match ver_at (x_cl x) recv t with Some _ => 1 | None => 0 end) named)
+  end.
+
 Definition blob_tracts (m : list (tid * (Z * list Z))) (b : Z) : list (tid * (Z * list Z)) :=
   filter (fun e => fst (fst e) =? b) m.
 Definition drop_blob_tracts (m : list (tid * (Z * list Z))) (b : Z) : list (tid * (Z * list Z)) :=
@@ -346,11 +360,14 @@ Definition s_put (x : xstate) (t : tid) (ver : Z) : xstate * list Z :=
                end in
     (set_cl x cl1, [nv]).
 
-Definition s_gc (x : xstate) (old : list (tid * Z * bool)) (gone : list tid) : xstate * list Z :=
+(* TSCtlHandler.GCTract: a request stamped with another tractserver id is refused (ErrWrongTractserver) and has no effect *)
+Definition s_gc (x : xstate) (tsid : Z) (old : list (tid * Z * bool)) (gone : list tid) : xstate * list Z :=
   let cl := x_cl x in
-  let cl1 := remove_all cl 1 (gc_removals (ver_at cl 1) old gone) in
+  let ok := tsid =? 1 in
+  let cl1 := if ok then remove_all cl 1 (gc_removals (ver_at cl 1) old gone) else cl in
   let named := map (fun o => fst (fst o)) old ++ gone in
-  (set_cl x cl1, flat_map (fun t => match ver_at cl1 1 t with Some v => [1; v] | None => [0] end) named).
+  (set_cl x cl1, (if ok then c05_NoError else c05_ErrWrongTractserver) ::
+                 flat_map (fun t => match ver_at cl1 1 t with Some v => [1; v] | None => [0] end) named).
 
 (* ------------------------------------------------------------------ one event *)
 Definition step (x : xstate) (ev : list Z) : xstate * list Z :=
@@ -363,7 +380,7 @@ Definition step (x : xstate) (ev : list Z) : xstate * list Z :=
         | _ :: ts :: n :: r => step_report x ts (firstn (Z.to_nat n) (pairs r))
         | _ => (x, [-1])
         end
-      else if c =? 41 then match a with [n; f] => step_deliver x n f | _ => (x, [-1]) end
+      else if c =? 41 then match a with [n; f; r] => step_deliver_to x n f r | _ => (x, [-1]) end
       else if c =? 42 then match a with [b] => step_delete x b | _ => (x, [-1]) end
       else if c =? 43 then match a with [b] => step_undelete x b | _ => (x, [-1]) end
       else if c =? 44 then step_scan x
@@ -395,15 +412,15 @@ Definition step (x : xstate) (ev : list Z) : xstate * list Z :=
       else if c =? 110 then match a with [b; i; ver] => s_put x (b, i) ver | _ => (x, [-1]) end
       else if c =? 112 then
         match a with
-        | no :: r =>
+        | tsid :: no :: r =>
             let '(o, r1) := take (4 * no) r in
             match r1 with
             | ng :: r2 =>
-                s_gc x (map (fun q => let '(b, i, v, f) := q in ((b, i), v, negb (f =? 0))) (quads o))
+                s_gc x tsid (map (fun q => let '(b, i, v, f) := q in ((b, i), v, negb (f =? 0))) (quads o))
                      (firstn (Z.to_nat ng) (pairs r2))
             | [] => (x, [-1])
             end
-        | [] => (x, [-1])
+        | _ => (x, [-1])
         end
       else (x, [-1])
   end.
